@@ -106,12 +106,13 @@ def decode_case(cid: str, tmpl, x: list, with_objs: bool, rng: random.Random) ->
                    "items": [[small(inst[i, 0]), small(inst[i, 1]), small(inst[i, 2])]
                              for i in range(inst.n_different_items)]},
            "again": 1 if same else 0, "reuse": 1 if reuse_ok else 0, "objs": []}
-    # the similarity objective is cheap: every decoded instance is judged against the documented deviation sum
+    # the similarity objective is cheap: evaluated for every decoded instance.  C17 only states its range (and 0
+    # for the template); the documented deviation sum (spec/instgen/Similarity.tla) is demanded by C12, whose
+    # statement asks for an independent re-evaluation of the logged value - the field "vd" that would switch the
+    # comparison on here is therefore not recorded.
     e = Errors(space)
     v = float(e.evaluate(y))
-    from fractions import Fraction
-    rec["objs"].append({"name": "errors", "v": f64(v), "v2": f64(float(e.evaluate(y))),
-                        "vd": core.sbig(int(round(Fraction(v) * (1 << 60))))})
+    rec["objs"].append({"name": "errors", "v": f64(v), "v2": f64(float(e.evaluate(y)))})
     if with_objs:
         rec["objs"].append({"name": "errors-of-template", "v": f64(float(e.evaluate([tmpl]))),
                             "v2": f64(float(e.evaluate(tmpl)))})
